@@ -608,7 +608,13 @@ func c14Run(ctx *runCtx) int {
 				last = l
 			}
 		}
-		ctx.rep.Violate("c14|member-crashed|"+c14CrashShape(tail), fmt.Sprintf("child %s died (exit %d timeout=%v): %s ; last case started: %s", b.Spec, res.ExitCode, res.TimedOut, lastLines(tail, 12), last),
+		cls := "member-crashed"
+		if strings.Contains(tail, "go-redis/v9.(*PubSub).newMessage") {
+			// the subscriber's client library could not parse what the member delivered: the stream of messages on
+			// the subscriber connection was not a sequence of intact messages
+			cls = "garbled-delivery|subscriber-client-panicked-parsing-the-stream"
+		}
+		ctx.rep.Violate("c14|"+cls+"|"+c14CrashShape(tail), fmt.Sprintf("child %s died (exit %d timeout=%v): %s ; last case started: %s", b.Spec, res.ExitCode, res.TimedOut, lastLines(tail, 12), last),
 			map[string]interface{}{"batch": b.Spec, "log": res.LogPath, "last_case": strings.TrimPrefix(last, "CASE ")})
 	})
 	// race-detector reports are diagnostics only (data-race freedom is not part of C14)
